@@ -111,7 +111,7 @@ func init() {
 				}
 			}
 			// timers are created while a write is being handled: remember which write armed which timer
-			w.S.OnSpawn = func(t *simrt.Task) {
+			w.SpawnHook = func(t *simrt.Task) {
 				if t.Kind != "timer" {
 					return
 				}
